@@ -180,8 +180,8 @@ def run_e2(prop, ctx, queries, twin):
             if rec['r'] == 'unsat':
                 res.discharged += 1
                 res.nontrivial += 1
-                if len(res.samples) < 6:
-                    res.add_sample(dict(shape=o['shape'], query=qn, verdict='unsat', seconds=rec['t']))
+                if len(res.samples) < 8 and (len(o['shape'][0]) + len(o['shape'][1]) >= 2 or not res.samples):
+                    res.add_sample(dict(shape=dict(application_level=o['shape'][0], route_level=o['shape'][1]), query=qn, verdict='unsat: no assignment of signatures/provides/resources/URL names of this shape violates the query', seconds=rec['t']))
             elif rec['r'] == 'sat':
                 want, types_ok = expected_from_spec(qn, rec)
                 rv = rec['real_verdict']
